@@ -174,6 +174,9 @@ def body(c):
                     'maximal-rank guess: energy error %.3e after one sweep (scale %.3e)' % (errs[1], scale))
         if c['guess'] in ('rank1', 'admissible') and c['repeats'] >= 2:
             lab.add('multi_sweep_lowrank')
+        # calling again with the same arguments gives the same result (no hidden state between calls)
+        again = dense.matrix(run(c, op, g, rhs, c['repeats'], c['solver']).cores).reshape(-1)
+        close(again, last, 1e-12, float(np.linalg.norm(last)) + 1e-300, 'repeatable', 'second call with identical arguments')
         # both micro-solvers agree
         other = 'lu' if c['solver'] == 'solve' else 'solve'
         y = run(c, op, g, rhs, c['repeats'], other)
